@@ -35,6 +35,7 @@ type HOp struct {
 	ModeSet         int  // >= 0: the call sets the mode to this value (SetMode)
 	Out             int  // >= 0: variable written as an out-parameter (MantExp(out)); Dst is then only read
 	NoDiff          bool // C10 differential not applicable (result defined by the receiver's buffer etc.)
+	ReadOnly        bool // conversions / formatting / predicates on Dst: no variable may change at all
 	Additive        bool // Add, Sub, FMA (alignment shift ∝ exponent gap)
 }
 
@@ -148,7 +149,7 @@ func histOps(reduced bool) []HOp {
 		add(HOp{Name: dn + ".SetUint64(10^19-1)", Dst: d, Do: func(z *Dec, s []*Dec) { z.SetUint64(BW - 1) }, PrecRule: prConst, PrecConst: 34, CopiesAttrsFrom: -1, ModeSet: -1})
 		strs := []string{"1.5", "-0", "1e-3", "0x1p-1", "Inf", "12345678901234567890123456789012345678901234567890", "-9.99e5", "0.0000000000000000000", "0.00000000000000000001234567890123456789", "00000000000000000001000000000000000000"}
 		if reduced {
-			strs = []string{"1.5", "-0", "Inf", "12345678901234567890123456789012345678901234567890", "0.0000000000000000000", "0.00000000000000000001234567890123456789"}
+			strs = []string{"1.5", "-0", "Inf", "0x1p-1", "12345678901234567890123456789012345678901234567890", "0.0000000000000000000", "0.00000000000000000001234567890123456789"}
 		}
 		for _, sv := range strs {
 			sv := sv
@@ -223,6 +224,25 @@ func histOps(reduced bool) []HOp {
 			m, e := z.BitsExp()
 			z.SetBitsExp(m, int64(e))
 		}, RecvIsInput: true, PrecRule: prFree, CopiesAttrsFrom: -1, ModeSet: -1, NoDiff: true})
+		// conversions, formatting and predicates: nothing may change (not even the representation)
+		add(HOp{Name: dn + ".{Int,Int64,Uint64,Rat,Float64,Float32,Float,Text,Sprintf,MarshalText,GobEncode,IsInt,MinPrec,Cmp,Sign}", Dst: d, Do: func(z *Dec, s []*Dec) {
+			if e := z.MantExp(nil); e < 3000 && e > -3000 {
+				z.Int(nil)
+				z.Rat(nil)
+				_ = z.Text('f', 2) // ∝ exponent
+			}
+			z.Int64()
+			z.Uint64()
+			z.Float64()
+			z.Float32()
+			z.Float(nil)
+			_ = z.Text('e', 3) + z.Text('g', -1) + fmt.Sprintf("%8.3v|%x", z, z)
+			z.MarshalText()
+			z.GobEncode()
+			_ = z.IsInt()
+			_ = z.MinPrec()
+			_ = z.Cmp(z) + z.Sign()
+		}, RecvIsInput: true, PrecRule: prKeep, CopiesAttrsFrom: -1, ModeSet: -1, NoDiff: true, ReadOnly: true})
 		// hostile gob payloads (errors are fine; a successful decode must leave a canonical value)
 		for i, pl := range hostilePayloads() {
 			pl := pl
@@ -669,6 +689,19 @@ func histLayers(judge histJudge, tier string, what string) []Layer {
 						if pv != nil && !isNaN {
 							c.Fail(keyOf(hs, st, oi), fmt.Sprintf("panic that is not ErrNaN: %v", pv))
 							continue
+						}
+						if hs.ops[oi].ReadOnly {
+							changed := false
+							for k := range after {
+								if !sameObsFull(before[k], after[k]) {
+									c.Fail(keyOf(hs, st, oi), fmt.Sprintf("a read-only operation changed variable %s: %s -> %s", varNames[k], before[k], after[k]))
+									changed = true
+									break
+								}
+							}
+							if changed {
+								continue
+							}
 						}
 						judge(c, hs, st, oi, before, vs, after, pv, isNaN)
 					}
